@@ -22,6 +22,7 @@ WideEnv  == AllEnv \cup {"EditProfile", "Expire"}
 IssuerEnv == AllEnv \cup {"SetIssuer"}
 FullEnv  == WideEnv \cup {"SetIssuer"}
 ConfigEnv == AllEnv \cup {"RemoveConfig", "AddConfig"}                     \* + configurations deleted and put back
+BreakOnlyEnv == {"BreakSignature"}          \* selftest: the property set is not satisfiable for this kind of corruption
 ConfigOnlyEnv == {"RemoveConfig", "AddConfig"}
 EverythingEnv == FullEnv \cup {"RemoveConfig", "AddConfig"}
 ExpiryFlagSets == SUBSET {"m", "c", "e"}
